@@ -20,7 +20,7 @@ pub fn plan_for(id: &str) -> Vec<FuzzPlan> {
     match id {
         "C01" => vec![bytes(25_000), ops(25_000)],
         "C02" | "C11" => vec![bytes(30_000)],
-        "C03" | "C09" | "C10" => vec![bytes(12_000), ops(20_000)],
+        "C03" | "C09" | "C10" => vec![bytes(8_000), ops(20_000)],
         _ => vec![ops(30_000)],
     }
 }
